@@ -17,16 +17,19 @@ CONSTANT Ctx
 VARIABLE st
 vars == <<st>>
 
-NL == <<10>>
+CRs == {"closedCR", "methodCR", "respBodyCR", "explicitCR"}      \* the same prefixes with lone-CR line breaks
+NL == IF Ctx \in CRs THEN <<13>> ELSE <<10>>
+Base == CASE Ctx = "closedCR" -> "closed" [] Ctx = "methodCR" -> "method" [] Ctx = "respBodyCR" -> "respBody" [] Ctx = "explicitCR" -> "explicit" [] OTHER -> Ctx
 Sp2 == <<32, 32>>
 PrefixChunks ==
-  CASE Ctx = "root"     -> <<>>
-    [] Ctx = "respBody" -> << PlainChunk(<<50,48,48>> \o NL \o Sp2 \o KwBytes["Body"] \o <<32>> \o AnyB \o NL) >>            \* 200 / Body any
-    [] Ctx = "reqBody"  -> << PlainChunk(KwBytes["Request"] \o NL \o Sp2 \o KwBytes["Body"] \o <<32>> \o AnyB \o NL) >>        \* Request / Body any
-    [] Ctx = "tag"      -> << PlainChunk(<<50,48,48>> \o NL \o Sp2 \o KwBytes["Body"] \o <<32>> \o AnyB \o NL \o KwBytes["TAG"] \o <<32,64,116>> \o NL) >>   \* 200 / Body any / TAG @t
-    [] Ctx = "method"   -> << PlainChunk(KwBytes["GET"] \o <<32,47,97>> \o NL) >>                                                 \* GET /a
-    [] Ctx = "typeBody" -> << PlainChunk(KwBytes["TYPE"] \o <<32,64,116>> \o NL), BodyChunk(<<123,125>>, TRUE, FALSE, 0), PlainChunk(NL) >>   \* TYPE @t / {}
-    [] Ctx = "explicit" -> << PlainChunk(KwBytes["URL"] \o <<32,47,97>> \o NL \o <<40>> \o NL) >>                                 \* URL /a ( 
+  CASE Base = "root"     -> <<>>
+    [] Base = "closed"   -> << PlainChunk(KwBytes["URL"] \o <<32,47,97>> \o NL \o <<40>> \o NL \o <<41>> \o NL) >>                       \* URL /a ( )
+    [] Base = "respBody" -> << PlainChunk(<<50,48,48>> \o NL \o Sp2 \o KwBytes["Body"] \o <<32>> \o AnyB \o NL) >>            \* 200 / Body any
+    [] Base = "reqBody"  -> << PlainChunk(KwBytes["Request"] \o NL \o Sp2 \o KwBytes["Body"] \o <<32>> \o AnyB \o NL) >>        \* Request / Body any
+    [] Base = "tag"      -> << PlainChunk(<<50,48,48>> \o NL \o Sp2 \o KwBytes["Body"] \o <<32>> \o AnyB \o NL \o KwBytes["TAG"] \o <<32,64,116>> \o NL) >>   \* 200 / Body any / TAG @t
+    [] Base = "method"   -> << PlainChunk(KwBytes["GET"] \o <<32,47,97>> \o NL) >>                                                 \* GET /a
+    [] Base = "typeBody" -> << PlainChunk(KwBytes["TYPE"] \o <<32,64,116>> \o NL), BodyChunk(<<123,125>>, TRUE, FALSE, 0), PlainChunk(NL) >>   \* TYPE @t / {}
+    [] Base = "explicit" -> << PlainChunk(KwBytes["URL"] \o <<32,47,97>> \o NL \o <<40>> \o NL) >>                                 \* URL /a ( 
 RECURSIVE FeedAll(_, _, _)
 FeedAll(S, cs, i) == IF i > Len(cs) THEN S ELSE FeedAll(FeedChunk(S, cs[i]), cs, i + 1)
 Start == FeedAll(Init0, PrefixChunks, 1)
